@@ -72,7 +72,7 @@ pub fn run(a: &Args) {
     let check = |fmt: Fmt, b: &[u8], canonical: bool, st: &mut Stats| -> String {
         let tag = if fmt == Fmt::Pth { "pth" } else { "smx" }; let id = format!("{tag} {}", if b.len() <= 4096 { hex(b) } else { format!("<{} bytes>", b.len()) });
         // allocation is measured around the parse alone; the Debug rendering and the re-written copy are the harness's
-        let (_, peak) = peak_during(|| guard(|| match fmt { Fmt::Pth => Pth::read(&mut Cursor::new(b)).is_ok(), Fmt::Smx => Smx::read(&mut Cursor::new(b)).is_ok() }));
+        let (_, peak) = peak_during(|| watched("the PTH / SMX parser", || id.clone(), || guard(|| match fmt { Fmt::Pth => Pth::read(&mut Cursor::new(b)).is_ok(), Fmt::Smx => Smx::read(&mut Cursor::new(b)).is_ok() })));
         let r = parse_write(fmt, b);
         if peak > 16 * b.len() + (256 << 10) { st.fail(format!("[C17] parsing a {}-byte {tag} input allocated {peak} bytes", b.len()), id.clone()); }
         match r {
